@@ -67,6 +67,7 @@ def _e1_shards(tier):
     profiles += [{"open": o, "exc": e} for o in range(1, I.N_OPEN) for e in (0, 3)]
     profiles += [{"fin": f, "exc": e} for f in (1, 2) for e in (0, 4)]
     profiles += [{"msgs": 1, "msg": 4, "exc": 7, "ext": x} for x in (1, 3, 9, 13)]
+    profiles += [{"handling": 1}, {"handling": 1, "open": 3}, {"handling": 1, "open": 4}]
     profiles += [{"unentered": 1, "msgs": 0}, {"unentered": 1, "exc": 7, "ext": 1}, {"unentered": 1, "exc": 3}]
     # finish(exc) called while the action is still current (style 6), with working / raising / colliding extractors
     profiles += [{"open": 6, "exc": 7, "ext": x} for x in (1, 2, 4)] + [{"exc": 7, "xcollide": 1}, {"open": 6, "exc": 7, "xcollide": 1}]
@@ -138,7 +139,7 @@ OBLIGATIONS = [
         shards=_e1_shards,
         twin=[{"N": 4, "D": 3, "twin_label": "two-failed"}],
         timeout={"quick": 100, "thorough": 900},
-        bounds={"quick": "open/close/raise(j) sequences <= 4 ops, depth <= 3; 8 exception classes; 27 extractor configurations for the 3-level user hierarchy (<= 3 ops), 8 configurations where further extractors are registered after the first failure; extractors returning keys named like the built-in failure fields; finish(exc) called inside the action's own context; 6 open styles x {ValueError, KeyboardInterrupt}; extra finish()/finish(exc); tracebacks with raising extractors", "thorough": "<= 6 ops, depth <= 4"},
+        bounds={"quick": "open/close/raise(j) sequences <= 4 ops, depth <= 3; 8 exception classes; 27 extractor configurations for the 3-level user hierarchy (<= 3 ops), 8 configurations where further extractors are registered after the first failure; extractors returning keys named like the built-in failure fields; finish(exc) called inside the action's own context; actions that succeed while an unrelated exception is being handled; 6 open styles x {ValueError, KeyboardInterrupt}; extra finish()/finish(exc); tracebacks with raising extractors", "thorough": "<= 6 ops, depth <= 4"},
     ),
     Ob("L1", L1, body_L1, "S", desc="errno extracted by the stock OSError extractor reaches both failed ends unchanged for every int; start fields stay off the end messages", functions=["Action.finish", "safeunicode", "ErrorExtraction.get_fields_for_exception"], timeout={"quick": 120, "thorough": 300}, bounds={"quick": "errno any int, start field any int, two nested actions"}),
 ]
